@@ -57,6 +57,19 @@ theorem step_frame (proj : Nat → Nat) (s : ES) (st : Step) :
         · split
           · exact ⟨Nat.le_succ _, fun r hr => pushCells_below _ _ _ _ hr, fun r hr => setOwner_below _ _ _ _ _ hr⟩
           · exact ⟨Nat.le_refl _, fun _ _ => rfl, fun _ _ => rfl⟩
+  | forwardIncl i d =>
+    simp only [step]
+    split
+    · exact ⟨Nat.le_refl _, fun _ _ => rfl, fun _ _ => rfl⟩
+    · split
+      · exact ⟨Nat.le_refl _, fun _ _ => rfl, fun _ _ => rfl⟩
+      · split
+        · exact ⟨Nat.le_refl _, fun _ _ => rfl, fun _ _ => rfl⟩
+        · split
+          · exact ⟨Nat.le_refl _, fun _ _ => rfl, fun _ _ => rfl⟩
+          · split
+            · exact ⟨Nat.le_add_right _ _, fun r hr => pushCells_below _ _ _ _ hr, fun r hr => setOwner_below _ _ _ _ _ hr⟩
+            · exact ⟨Nat.le_succ _, fun r hr => pushCells_below _ _ _ _ hr, fun r hr => setOwner_below _ _ _ _ _ hr⟩
   | mergeIn i =>
     simp only [step]
     split
@@ -315,6 +328,35 @@ theorem step_inv (proj : Nat → Nat) (s : ES) (st : Step) (hi : Inv s) : Inv (s
                   refine Or.inr ⟨by rw [hib]; exact List.mem_cons_self, ?_, ?_⟩
                   · cases h : sb.mask <;> simp_all
                   · cases h1 : sb.lossy <;> cases h2 : sb.value <;> simp_all)
+  | forwardIncl i d =>
+    simp only [step]
+    split
+    · exact hi
+    · rename_i sb hf
+      have hsb := find_mem hf
+      split
+      · exact hi
+      · split
+        · exact hi
+        · rename_i r rest hib
+          split
+          · exact Inv.replace hi sb hsb _ (fun _ => rfl) rfl rfl rfl
+              (fun x hx => by rw [hib]; exact List.mem_cons_of_mem _ hx) (fun x hx => Or.inl hx)
+          · split
+            · exact Inv.alloc_replace hi sb hsb [convEv d (s.heap r), projEv proj (convEv d (s.heap r))] _ (fun _ => rfl) rfl rfl rfl
+                (fun x hx => by rw [hib]; exact List.mem_cons_of_mem _ hx)
+                (fun x hx => by
+                  simp only [List.mem_append, List.mem_singleton] at hx
+                  rcases hx with hx | hx
+                  · exact Or.inl hx
+                  · subst hx; exact Or.inr (Or.inl ⟨by omega, by simp⟩))
+            · exact Inv.alloc_replace hi sb hsb [convEv d (s.heap r)] _ (fun _ => rfl) rfl rfl rfl
+                (fun x hx => by rw [hib]; exact List.mem_cons_of_mem _ hx)
+                (fun x hx => by
+                  simp only [List.mem_append, List.mem_singleton] at hx
+                  rcases hx with hx | hx
+                  · exact Or.inl hx
+                  · subst hx; exact Or.inr (Or.inl ⟨Nat.le_refl _, by simp⟩))
   | dropIn i =>
     simp only [step]
     split
